@@ -161,10 +161,14 @@ func Run(t *testing.T, id string, body func(c *Ctx)) {
 	if s := os.Getenv("VERIF_WATCHDOG_S"); s != "" {
 		wd, _ = strconv.ParseFloat(s, 64)
 	}
+	stop := make(chan struct{})
 	if wd > 0 {
-		go c.watchdog(time.Duration(wd * float64(time.Second)))
+		go c.watchdog(time.Duration(wd*float64(time.Second)), stop)
 	}
-	body(c)
+	func() {
+		defer close(stop)
+		body(c)
+	}()
 	c.finish()
 }
 
@@ -391,9 +395,13 @@ func (c *Ctx) newW(part string) *W {
 // crash to that case and re-runs it in fresh processes before reporting it.
 // The limit is generous (minutes for cases that take micro- to milliseconds)
 // so that machine load cannot trigger it.
-func (c *Ctx) watchdog(limit time.Duration) {
+func (c *Ctx) watchdog(limit time.Duration, stop <-chan struct{}) {
 	for {
-		time.Sleep(2 * time.Second)
+		select {
+		case <-stop:
+			return
+		case <-time.After(2 * time.Second):
+		}
 		now := time.Now().UnixNano()
 		c.wsMu.Lock()
 		ws := append([]*W(nil), c.ws...)
